@@ -151,6 +151,7 @@ pub struct SemanticData<'a> {
     pub predict_sets: FxHashMap<NodeRef, BTreeSet<TokenName<'a>>>,
     pub recovery_sets: FxHashMap<NodeRef, BTreeSet<TokenName<'a>>>,
     pub left_rec_local_follow_sets: FxHashMap<NodeRef, BTreeSet<TokenName<'a>>>,
+    pub recursive_operands: FxHashSet<NodeRef>,
     pub used: FxHashSet<NodeRef>,
     pub has_rule_rename: FxHashSet<RuleDecl>,
     pub has_rule_creation: FxHashSet<RuleDecl>,
@@ -1144,6 +1145,24 @@ impl<'a> LL1Validator {
                 }
             }
         }
+        // the left and right operands of recursive branches are parsed by the operator
+        // loop itself: what follows them is an operator or follows the whole rule
+        for recursive in sema.recursive.values() {
+            for branch in recursive.branches() {
+                let (regex, indices) = match branch {
+                    Recursion::Left(regex, left) => (regex, vec![*left]),
+                    Recursion::Right(regex, right) => (regex, vec![*right]),
+                    Recursion::LeftRight(regex, left, right) => (regex, vec![*left, *right]),
+                };
+                if let Regex::Concat(concat) = regex {
+                    for index in indices {
+                        if let Some(op) = concat.operands(cst).nth(index) {
+                            sema.recursive_operands.insert(op.syntax());
+                        }
+                    }
+                }
+            }
+        }
         // Iterates until there are no more changes in the follow sets
         let mut change = true;
         while change {
@@ -1181,7 +1200,9 @@ impl<'a> LL1Validator {
                         .left_rec_local_follow_sets
                         .entry(name_rule_regex.syntax())
                         .or_default();
-                    if rule_regex != name_rule_regex {
+                    if rule_regex != name_rule_regex
+                        || !sema.recursive_operands.contains(&regex.syntax())
+                    {
                         left_rec_local_follow.extend(follow.clone());
                     }
                     sema.follow_sets
